@@ -56,7 +56,7 @@ def make_case(idx, seed):
 
     def rejected():
         nonlocal nm, aid
-        k = rng.randint(0, 7)
+        k = rng.randint(0, 8)
         if itp and num and rng.random() < 0.5:
             k = 0                                        # refused by the solver, after the front end has read it
         b = gen.smt(rng.choice(p.bools))
@@ -78,6 +78,11 @@ def make_case(idx, seed):
             aid -= 1
             d = depth + rng.randint(1, 3)
             return f"(pop {d})", f"POP {d}"
+        if k == 8 and cores:
+            # a definition that is refused after its body (with a fresh inner name) was read: sort mismatch or unknown symbol
+            nm += 1; leaked.append(nm)
+            body = rng.choice([f"(! {b} :named K{nm})", f"(or {b} (! (not {b}) :named K{nm}))"])
+            return f"(define-fun dd{nm} () Int {body})", f"A {aid} 0 {nm}"
         if k == 6 and num:
             return f"(assert (< {gen.smt(num)} true))", f"A {aid} 0"                          # ill-sorted
         return f"(assert (= {b} nosuchsymbol2))", f"A {aid} 0"
